@@ -78,6 +78,10 @@ func loadEnv() []string {
 // loadModule loads <repo>/<sub> (sub is "kernel" or "kbuild"). overlay maps
 // absolute file names to replacement contents (used only by the positive
 // controls of the thorough tier).
+// selfStores: stores of a variable's own, just loaded, value (recorded when a
+// module is loaded, before any value is rewritten).
+var selfStores = map[*ssa.Store]bool{}
+
 func loadModule(sub string, minPkgs int, overlay map[string][]byte) (*Module, error) {
 	dir := filepath.Join(repoRoot(), sub)
 	fset := token.NewFileSet()
@@ -149,6 +153,17 @@ func loadModule(sub string, minPkgs int, overlay map[string][]byte) (*Module, er
 	for _, fn := range m.Funcs {
 		for _, b := range fn.Blocks {
 			m.NInstr += len(b.Instrs)
+			// `return` in a function with named results that a closure captures is
+			// built as `*r = *r` for each of them: such a store changes nothing
+			for i, in := range b.Instrs {
+				st, ok := in.(*ssa.Store)
+				if !ok || i == 0 {
+					continue
+				}
+				if ld, ok := b.Instrs[i-1].(*ssa.UnOp); ok && ld.Op == token.MUL && ld.X == st.Addr && st.Val == ssa.Value(ld) {
+					selfStores[st] = true
+				}
+			}
 		}
 	}
 	loadedModules = append(loadedModules, m)
